@@ -32,8 +32,15 @@ def describe(B, c):
     if k in ('min', 'max'):
         return '%s(%s,%s)' % (k, describe(B, c[1]), describe(B, c[2]))
     if k == 'call':
-        n = c[1] or '?'
-        return 'call(%s)' % n.split('::')[-1]
+        n = (c[1] or '?').split('::')[-1]
+        try:
+            from .ranges import call_args_desc
+            args = call_args_desc(B, c)
+            if len(args) <= 2:
+                return '%s(%s)' % (n, ','.join(describe(B, a) if a[0] != 'call' else 'call' for a in args))
+        except Exception:
+            pass
+        return 'call(%s)' % n
     if k == 'discr':
         return 'discr(%s)' % describe(B, c[1])
     return k
